@@ -3559,11 +3559,8 @@ func ruleCMP16(c *Ctx) []Ob {
 				k++
 				key := fmt.Sprintf("%s/a float is converted to an integer inside the integer's range #%d", c.fname(fn), k)
 				upOK, loOK := false, false
-				for _, dc := range dominatingConds(fn, b) {
-					bo, ok := dc.cond.(*ssa.BinOp)
-					if !ok {
-						continue
-					}
+				for _, dc := range c.comparisonFacts(fn, b) {
+					bo := dc
 					var kv *ssa.Const
 					var op token.Token
 					switch {
@@ -4107,6 +4104,25 @@ func (c *Ctx) nonNegAt(fn *ssa.Function, v ssa.Value, at *ssa.BasicBlock, extra 
 		if b, ok := x.Call.Value.(*ssa.Builtin); ok && (b.Name() == "len" || b.Name() == "cap") {
 			return true
 		}
+		// a library helper all of whose results are non-negative
+		if g := staticCallee(x); g != nil && c.IsLib(c.declared(g)) && len(c.declared(g).Blocks) > 0 && depth < 4 {
+			g = c.declared(g)
+			all, any := true, false
+			for _, ret := range returnsOf(g) {
+				rv, ok := returnedValue(ret, 0)
+				if !ok {
+					all = false
+					continue
+				}
+				any = true
+				if !c.nonNegAt(g, rv, ret.Block(), nil, depth+4) {
+					all = false
+				}
+			}
+			if all && any {
+				return true
+			}
+		}
 	case *ssa.Convert:
 		// a signed integer found non-negative stays so when widened (an unsigned one may wrap: not taken)
 		if c.nonNegAt(fn, x.X, at, extra, depth+1) {
@@ -4281,4 +4297,138 @@ func (c *Ctx) searchedBefore(fn *ssa.Function, at *ssa.BasicBlock, src ssa.Value
 		return "behind a test of what a helper that searches the catalog's list answered for the field", true
 	}
 	return why, false
+}
+
+// ---------------------------------------------------------------- comparison facts (CMP16)
+
+// cmpFact: the comparison X Op Y has the outcome branch.
+type cmpFact struct {
+	X, Y   ssa.Value
+	Op     token.Token
+	branch bool
+}
+
+// comparisonFacts: the comparisons known to hold (or not) when control is in block b of fn: the
+// conditions on every path to b, and - where such a condition is the answer of a library
+// predicate (`if !floatInInt64Range(v) { return ... }`) - the comparisons that hold whenever the
+// predicate answers true, with its parameters replaced by the arguments.
+func (c *Ctx) comparisonFacts(fn *ssa.Function, b *ssa.BasicBlock) []cmpFact {
+	var out []cmpFact
+	for _, dc := range dominatingConds(fn, b) {
+		cond, branch := dc.cond, dc.branch
+		for {
+			u, ok := cond.(*ssa.UnOp)
+			if !ok || u.Op != token.NOT {
+				break
+			}
+			cond, branch = u.X, !branch
+		}
+		switch x := cond.(type) {
+		case *ssa.BinOp:
+			out = append(out, cmpFact{x.X, x.Y, x.Op, branch})
+		case *ssa.Call:
+			if !branch {
+				continue
+			}
+			g := staticCallee(x)
+			if g == nil || !c.IsLib(c.declared(g)) {
+				continue
+			}
+			g = c.declared(g)
+			for _, f := range c.trueImplies(g) {
+				subst := func(v ssa.Value) ssa.Value {
+					if p, ok := v.(*ssa.Parameter); ok {
+						if pi := paramIndex(g, p); pi >= 0 && pi < len(x.Call.Args) {
+							return x.Call.Args[pi]
+						}
+					}
+					return v
+				}
+				out = append(out, cmpFact{subst(f.X), subst(f.Y), f.Op, f.branch})
+			}
+		}
+	}
+	return out
+}
+
+// trueImplies: comparisons (over g's parameters and constants) that hold whenever the boolean
+// library function g answers true.
+func (c *Ctx) trueImplies(g *ssa.Function) []cmpFact {
+	if g.Signature.Results().Len() != 1 || len(g.Blocks) == 0 {
+		return nil
+	}
+	if bt, ok := g.Signature.Results().At(0).Type().Underlying().(*types.Basic); !ok || bt.Kind() != types.Bool {
+		return nil
+	}
+	factsAt := func(b *ssa.BasicBlock) []cmpFact {
+		var fs []cmpFact
+		for _, dc := range dominatingConds(g, b) {
+			if bo, ok := dc.cond.(*ssa.BinOp); ok {
+				fs = append(fs, cmpFact{bo.X, bo.Y, bo.Op, dc.branch})
+			}
+		}
+		return fs
+	}
+	var alts [][]cmpFact
+	var addAlt func(v ssa.Value, at *ssa.BasicBlock, extra []cmpFact, depth int)
+	addAlt = func(v ssa.Value, at *ssa.BasicBlock, extra []cmpFact, depth int) {
+		if depth > 4 {
+			alts = append(alts, nil)
+			return
+		}
+		switch x := v.(type) {
+		case *ssa.Const:
+			if x.Value != nil && x.Value.Kind() == constant.Bool && !constant.BoolVal(x.Value) {
+				return // never true this way
+			}
+			alts = append(alts, append(factsAt(at), extra...))
+		case *ssa.BinOp:
+			alts = append(alts, append(append(factsAt(at), extra...), cmpFact{x.X, x.Y, x.Op, true}))
+		case *ssa.Phi:
+			for i, e := range x.Edges {
+				p := x.Block().Preds[i]
+				var ex []cmpFact
+				if len(p.Instrs) > 0 {
+					if iff, ok := p.Instrs[len(p.Instrs)-1].(*ssa.If); ok && p.Succs[0] != p.Succs[1] {
+						if bo, ok := iff.Cond.(*ssa.BinOp); ok {
+							ex = append(ex, cmpFact{bo.X, bo.Y, bo.Op, p.Succs[0] == x.Block()})
+						}
+					}
+				}
+				addAlt(e, p, append(ex, extra...), depth+1)
+			}
+		default:
+			alts = append(alts, nil)
+		}
+	}
+	for _, ret := range returnsOf(g) {
+		rv, ok := returnedValue(ret, 0)
+		if !ok {
+			return nil
+		}
+		addAlt(rv, ret.Block(), nil, 0)
+	}
+	if len(alts) == 0 {
+		return nil
+	}
+	// the facts common to every way of answering true
+	var out []cmpFact
+	for _, f := range alts[0] {
+		inAll := true
+		for _, a := range alts[1:] {
+			found := false
+			for _, h := range a {
+				if h == f {
+					found = true
+				}
+			}
+			if !found {
+				inAll = false
+			}
+		}
+		if inAll {
+			out = append(out, f)
+		}
+	}
+	return out
 }
